@@ -184,10 +184,10 @@ class CallsMixin:
             base = self.ev(tgt.value, env, mod, fn)
             idx = None if isinstance(tgt.slice, ast.Slice) else self.ev(tgt.slice, env, mod, fn)
             if not self.quiet:
-                self.notes.append({"kind": "substore", "base": base, "idx": idx, "val": val,
+                self.notes.append({"kind": "substore", "base": base, "idx": idx, "val": val, "facts": list(env.facts),
                                    "where": self.loc(tgt), "func": self.cur_func(), "text": _txt(tgt)})
-            if base.k == "dictlit" and isinstance(tgt.value, ast.Name) and idx is not None:
-                env.vars[tgt.value.id] = T("dictlit", tuple((k, v) for k, v in base.a[0] if k != idx) + ((idx, val),), ty="dict")
+            if base.k == "dictlit" and isinstance(tgt.value, (ast.Name, ast.Attribute)) and idx is not None:
+                self.assign(tgt.value, T("dictlit", tuple((k, v) for k, v in base.a[0] if k != idx) + ((idx, val),), ty="dict"), env, mod, fn)
         else:
             self.unsupported("assignment target", tgt)
 
@@ -358,6 +358,20 @@ class CallsMixin:
             return T("call", "hash", (recv,), ty="int")
         if name == "update" and recv.k == "crcobj":
             return NONE
+        if name == "to_bytes" and recv.ty not in ("bytes", "bytearray", "str"):
+            # int.to_bytes(length, 'big'): the octets struct.pack of the unsigned format of that width gives (the two differ
+            # only in the class raised for a value that does not fit: OverflowError instead of struct.error)
+            ln = args[0] if args else kw.get("length", C(1))
+            order = args[1] if len(args) > 1 else kw.get("byteorder", C("big"))
+            signed = kw.get("signed")
+            if ln.k == "const" and isinstance(ln.a[0], int) and order.k == "const" and order.a[0] == "big" and (signed is None or is_const(signed, False)):
+                n = ln.a[0]
+                if n in (1, 2, 4, 8):
+                    return self.call_builtin("struct.pack", [C({1: "!B", 2: "!H", 4: "!I", 8: "!Q"}[n]), recv], {}, env, node)
+                if 0 < n <= 16:
+                    return bcat(tuple(T("u8", binop("&", binop(">>", recv, C(8 * (n - 1 - i))), C(0xFF))) for i in range(n)))
+                if n == 0:
+                    return bcat()
         if name in ("timestamp", "exists", "readline", "write", "seek", "strftime", "total_seconds",
                     "keys", "values", "format", "join", "split", "lower", "upper", "date", "read", "close",
                     "startswith", "endswith", "copy", "count", "index", "to_bytes", "bit_length"):
@@ -586,6 +600,20 @@ class CallsMixin:
                 for i in range(max(n, 0)):
                     val = binop("|", val, binop("<<", self.do_index(buf, C(i), env, node), C(8 * (n - 1 - i))))
                 return val
+            if buf.k == "slice" and order.k == "const" and order.a[0] == "big" and not is_const(buf.a[2], None) \
+                    and not (kw.get("signed") is not None and not is_const(kw.get("signed"), False)):
+                # a slice of constant extent at a symbolic position: the same value term struct.unpack of the unsigned
+                # format gives (for a slice that Python has clamped the value would be that of fewer octets; whether a
+                # short buffer can get here at all is decided by the length-refusal rules, not by this term)
+                from .linear import linearize
+                ext = linearize(buf.a[2]) - linearize(buf.a[1])
+                if ext.is_const() and ext.c in (1, 2, 4, 8):
+                    return T("unpacked", {1: "!B", 2: "!H", 4: "!I", 8: "!Q"}[ext.c], buf, ty="int")
+                if ext.is_const() and 0 < ext.c <= 16:
+                    val = C(0)
+                    for i in range(ext.c):
+                        val = binop("|", val, binop("<<", self.do_index(buf, C(i), env, node), C(8 * (ext.c - 1 - i))))
+                    return val
             return T("call", "int.from_bytes", (buf,), ty="int")
         if name == "bool":
             return truthy(args[0]) if args else FALSE
